@@ -9,7 +9,8 @@ RULE = ('cases = repository programs assembled at w=32/64 (thousands of ops, rea
         'w=8 images; each is run on featured, fast and native engines through fjm_run.run with a recording device '
         'and compared with the reference machine (cause, op count, fault address, exact IO call sequence). '
         'non-trivial = reference executes >= 8 ops and shows at least one of: unaligned ip, self-modification of '
-        'own/next op, input op, a memory fault, self-jump with self-flip; distinct = sha256 of the case JSON')
+        'own/next op, input op, a memory fault, self-jump with self-flip, or the case is a page walk (ops on 20-90 distinct '
+        '16K-word pages, each page entered twice); distinct = sha256 of the case JSON')
 ASSUMPTIONS = ['reference machine fjverif/machine.py is the machine definition (written from the property statement)',
                'images are written with the real Writer and loaded by the real Reader (their fidelity is C06)',
                'reference step budget 20000 ops; longer runs are discarded and counted']
@@ -23,12 +24,20 @@ def families(tier):
         {'name': 'assembled-programs', 'strategy': lambda: c07_programs(), 'examples': 8 if q else 300},
         # runs of about 2^18 / 2^19 ops: the native loops poll signals and refresh their bookkeeping every 2^18 ops
         {'name': 'long-rings', 'strategy': lambda: imagegen.long_rings(), 'examples': 2 if q else 60},
+        # op chains spread over 20-90 distinct 16K-word pages and walked twice: the native page table grows and its page
+        # cache evicts; a page lost on the way holds the ops of the second round
+        {'name': 'page-walks', 'strategy': lambda: c07_page_walks(), 'examples': 10 if q else 300},
     ]
 
 
 def c07_programs():
     from fjverif.props import c07
     return c07.program_cases()
+
+
+def c07_page_walks():
+    from fjverif.props import c07
+    return c07.page_walks()
 
 
 def pack_bytes(bits):
@@ -146,5 +155,5 @@ def run_case(case):
                              {'engine': eng, 'got': [o.cause, o.ops, o.fault, out.hex()],
                               'expected': [ref.cause, ref.ops, ref.fault, pack_bytes(ref.out).hex()]}, cl)
         cl.append('fixedio run')
-    nt = ref.ops >= 8 and bool(NONTRIVIAL_FLAGS & ref.flags or ref.n_in)
+    nt = ref.ops >= 8 and bool(NONTRIVIAL_FLAGS & ref.flags or ref.n_in or case.get('kind') == 'pagewalk')
     return Ok(cl, nt)
